@@ -962,6 +962,11 @@ func (c *Conn) dispatch(fr *FrameHeader) bool {
 		}
 	}
 
+	// A body has to come after the response headers.
+	if ok && err == nil && fr.Type() == FrameData && !r.gotStatus {
+		err = errInvalidStatus
+	}
+
 	// An error of the connection (a header block that does not decode) is the
 	// end of it, not only of this request.
 	var connErr Error
